@@ -25,7 +25,23 @@ TRUSTED = [
 ASSUMPTIONS = ["key_map injective and no short key equals another key of an entry; every value of a value-mapped key occurs in its list (ValidMaps)",
                "user meta keys do not start with '$'"]
 
-CONFIGS = ["plain-str", "plain-obj", "derived", "typed-str", "typed-obj", "typed-derived"]
+CONFIGS = ["plain-str", "plain-obj", "derived", "typed-str", "typed-obj", "typed-derived", "plain-hook-str", "typed-hook-str"]
+
+
+def hook_id(tree, data):
+    """a calc_data_id hook: str data gets a computed (non-hash) id, so every str node carries a custom data_id"""
+    return "H:" + data if isinstance(data, str) else hash(data)
+
+
+def new_tree(cfg, pool):
+    """(tree to fill or None, derived class or None)"""
+    typed = cfg.startswith("typed")
+    if cfg.endswith("derived"):
+        cls = S.make_derived(pool, typed)
+        return cls("t"), cls
+    if "-hook-" in cfg:
+        return (TypedTree if typed else Tree)("t", calc_data_id=hook_id), None
+    return None, None
 
 
 def make_tree(ctx, cfg, rng, n):
@@ -33,10 +49,8 @@ def make_tree(ctx, cfg, rng, n):
     typed = cfg.startswith("typed")
     labels = S.STRS if cfg.endswith("str") else S.STRS[:3] + S.OBJ
     spec = S.random_label_spec(rng, n, labels, typed)
-    cls = None
-    if cfg.endswith("derived"):
-        cls = S.make_derived(pool, typed)
-    tree = adapter.build(spec, pool, typed=typed, tree=(cls("t") if cls else None))
+    t0, cls = new_tree(cfg, pool)
+    tree = adapter.build(spec, pool, typed=typed, tree=t0)
     return spec, tree, cls
 
 
@@ -207,8 +221,8 @@ def replay(ctx, rp):
         cfg = case["cfg"]
         spec = tuplify_d(case["spec"])
         typed = cfg.startswith("typed")
-        cls = S.make_derived(ctx.pool, typed) if cfg.endswith("derived") else None
-        tree = adapter.build(spec, ctx.pool, typed=typed, tree=(cls("t") if cls else None))
+        t0, cls = new_tree(cfg, ctx.pool)
+        tree = adapter.build(spec, ctx.pool, typed=typed, tree=t0)
         comp = eval(case["compression"], {"__builtins__": {}}, {"True": True, "False": False})
         one_case(ctx, out, cfg, spec, tree, cls, case["key_map"], case["value_map"], comp, case["path"], tmpdir, itertools.count())
     finally:
